@@ -13,7 +13,7 @@ open Model Model.HandshakeAuth
 /-- time unit: hours relative to the instant `Config.Time` returns -/
 def mk (id subj iss key signer : Nat) (nb na : Int) (ca : Bool) (ku : Nat) (dns : List String) (cn : String)
     (eku : List Nat) : X509.Cert :=
-  ⟨id, subj, iss, key, signer, none, none, nb, na, ca, ca, -1, ku, [], dns, [], cn, eku, false, false⟩
+  ⟨id, subj, iss, key, signer, none, none, nb, na, ca, ca, -1, ku, [], dns, [], cn, eku, false, false, 3⟩
 
 def caMain : X509.Cert := mk 1 100 100 2000 2000 (-48) 48 true 96 [] "main CA" []
 def caOther : X509.Cert := mk 2 200 200 2100 2100 (-48) 48 true 96 [] "other CA" []
